@@ -3,7 +3,7 @@ import itertools
 from fractions import Fraction as Fr
 
 from ..nf import Rat, C
-from ..source import Unsupported, AnchorError
+from ..source import Unsupported, AnchorError, params
 from ..xlate import Interp, Obj, ListV, DictV, Raised, RankOrder
 from .common import same, show
 
@@ -43,11 +43,87 @@ class World:
         self.pairs.insert(pos, (x, s, Fr(rank)))
         return r
 
+    def probe(self):
+        self.ranks['xq'] = Fr(12)
+        D = self.I.D
+        return self.I.call_method(self.obj, 'get_UoRT', [], {'x': D.sym('xq'), 'T': D.sym('T')})
+
     def pop(self, i):
         r = self.I.call_method(self.obj, 'pop', [], {'i': C(i)})
         if i != 0 and -len(self.pairs) <= i < len(self.pairs):
             self.pairs.pop(i)
         return r
+
+
+class View:
+    """another model living in the interpreter of a World, with its own reference pair list"""
+
+    def __init__(self, w, obj, pairs):
+        self.I, self.ranks, self.ci, self.obj, self.pairs = w.I, w.ranks, w.ci, obj, list(pairs)
+
+
+def two_models(run, repo, ci):
+    """several models alive at the same time, built with as few arguments as the constructor asks for: editing one
+    leaves the others, and models built later, as they were"""
+    owner, fn = repo.find_method(ci, '__init__')
+    _names, defaults, _va, _kw = params(fn)
+    w = World(repo, 1)                  # supplies the interpreter and the ordering oracle
+    I, D = w.I, w.I.D
+
+    def build(tag):
+        kw = {'name_i': 'A' + tag, 'name_j': 'B' + tag}
+        if 'intervals' not in defaults:
+            kw['intervals'] = ListV([C(0)])
+        if 'slopes' not in defaults:
+            kw['slopes'] = ListV([D.sym('s0' + tag)])
+        return I.construct(ci, [], kw)
+
+    def lists(o):
+        got = [o.attrs.get('intervals'), o.attrs.get('slopes')] if isinstance(o, Obj) else [None, None]
+        return [list(v.items) if isinstance(v, ListV) else None for v in got]
+
+    def value(o, rank):
+        w.ranks['xq'] = Fr(rank)
+        return I.call_method(o, 'get_UoRT', [], {'x': D.sym('xq'), 'T': D.sym('T')})
+
+    a, b = build('a'), build('b')
+    key0 = 'lists omitted' if ('intervals' in defaults or 'slopes' in defaults) else 'lists given'
+    if isinstance(a, Raised) or isinstance(b, Raised) or None in lists(a) or None in lists(b):
+        run.fail('REF.construct', 'PiecewiseCovEffect.__init__', 'two models, ' + key0,
+                 'constructor gives %s / %s' % (show(a, 60), show(b, 60)), owner.module, fn)
+        return
+    snap = lists(b)
+    before = [value(b, r) for r in (3, 7)]
+    # reference for the model that is edited: what it lists after construction, plus the inserted pair
+    rk = [I.order.rank(x) if isinstance(x, Rat) else None for x in lists(a)[0]]
+    pairs_a = list(zip(lists(a)[0], lists(a)[1], rk))
+    w.ranks['xa'] = Fr(5)
+    xa, ka = D.sym('xa'), D.sym('ka')
+    r = I.call_method(a, 'insert', [], {'interval': xa, 'slope': ka})
+    if isinstance(r, Raised):
+        return                          # reported by the sequences
+    after = [value(b, r) for r in (3, 7)]
+
+    def same_lists(l1, l2):
+        return all(len(u) == len(v) and all(same(p, q) for p, q in zip(u, v)) for u, v in zip(l1, l2))
+
+    run.check(same_lists(lists(b), snap) and all(same(p, q) for p, q in zip(before, after)), 'EFFECT.shared-state',
+              'PiecewiseCovEffect.__init__', 'edit another model, ' + key0,
+              'inserting a breakpoint into one model changes another model that was built independently of it '
+              '(breakpoints %s -> %s, value below/above the new breakpoint %s -> %s)'
+              % (show(ListV(snap[0]), 60), show(ListV(lists(b)[0]), 60), show(ListV(before), 100),
+                 show(ListV(after), 100)), owner.module, fn)
+    c_ = build('b')
+    run.check(not isinstance(c_, Raised) and None not in lists(c_) and same_lists(lists(c_), snap),
+              'EFFECT.shared-state', 'PiecewiseCovEffect.__init__', 'build after an edit, ' + key0,
+              'a model built after another model was edited starts as %s / %s, the same construction before the edit '
+              'gave %s / %s' % (tuple(show(ListV(v), 60) if v is not None else '?' for v in lists(c_))
+                                + tuple(show(ListV(v), 60) for v in snap)), owner.module, fn)
+    if all(x is not None for x in rk) and rk == sorted(rk) and rk and rk[0] == 0 and Fr(5) not in rk:
+        pos = len([x for x in rk if x <= 5])
+        pairs_a.insert(pos, (xa, ka, Fr(5)))
+        invariants(run, View(w, a, pairs_a), 'edited model next to another, ' + key0,
+                   (ci.module, ci.methods['insert']) if 'insert' in ci.methods else (owner.module, fn))
 
 
 def invariants(run, w, label, owner_fn):
@@ -115,6 +191,43 @@ def invariants(run, w, label, owner_fn):
     return True
 
 
+def reloaded(run, w, key):
+    """to_dict -> from_dict of the model as it stands: the copy lists the reference breakpoints and slopes and
+    evaluates to the reference function beyond the last breakpoint (where every intercept has been used)"""
+    I, D, ci = w.I, w.I.D, w.ci
+    owner, fn = w.I.repo.find_method(ci, 'from_dict')
+    d = I.call_method(w.obj, 'to_dict', [], {})
+    if not isinstance(d, DictV):
+        run.fail('TABLE.roundtrip', 'PiecewiseCovEffect.to_dict', 'reload ' + key, 'to_dict does not return a '
+                 'dictionary (%s)' % show(d, 80), owner.module, fn)
+        return
+    o2 = I.call_function(owner.module, fn, [], {'json_obj': DictV(dict(d.d))}, self_obj=ci, owner=owner)
+    why = None
+    if not isinstance(o2, Obj):
+        why = 'from_dict gives %s' % show(o2, 80)
+    else:
+        iv, sl = o2.attrs.get('intervals'), o2.attrs.get('slopes')
+        want_iv, want_sl = [p[0] for p in w.pairs], [p[1] for p in w.pairs]
+        for nm, v, want in (('intervals', iv, want_iv), ('slopes', sl, want_sl)):
+            if not (isinstance(v, ListV) and len(v.items) == len(want) and all(same(a, b) for a, b in
+                                                                              zip(v.items, want))):
+                why = 'the reloaded %s are %s, the model had %s' % (nm, show(v, 100), show(ListV(want), 100))
+                break
+    if why is None:
+        ic = C(0)
+        for k in range(1, len(w.pairs)):
+            ic = ic + (w.pairs[k - 1][1] - w.pairs[k][1]) * w.pairs[k][0]
+        w.ranks['xq'] = w.pairs[-1][2] + 7
+        x, T = D.sym('xq'), D.sym('T')
+        got = I.call_method(o2, 'get_UoRT', [], {'x': x, 'T': T})
+        want = (w.pairs[-1][1] * x + ic) / (D.sym('kb') * D.sym('Na') * D.sym('U<kcal>') * T)
+        if not same(got, want):
+            why = 'beyond the last breakpoint the reloaded model gives %s, the continuous piecewise-linear energy ' \
+                  'of the listed pieces is %s' % (show(got, 100), show(want, 100))
+    run.check(why is None, 'TABLE.roundtrip', 'PiecewiseCovEffect.from_dict', 'reload ' + key,
+              'serialising and reloading changes the model: %s' % why, owner.module, fn)
+
+
 def check(run, repo):
     run.explanation = (
         'PiecewiseCovEffect is interpreted abstractly through its real constructor, insert, pop and '
@@ -157,6 +270,10 @@ def check(run, repo):
                 valid = True
                 last_owner = init_owner
                 for op, arg in seq:
+                    # the model is evaluated before every edit as well (a coverage sweep between two edits): an
+                    # evaluation must not leave anything behind that survives the next edit. The value itself was
+                    # decided when this prefix was the whole sequence.
+                    w.probe()
                     if op == 'insert':
                         r = w.insert(arg)
                         last_owner = ins_owner
@@ -199,8 +316,12 @@ def check(run, repo):
                 invariants(run, w, key, last_owner)
                 if run.obligations - run.discharged > nfail0:
                     failed.add(seq)
+                elif len(seq) <= 2:
+                    # the model reached by this sequence, serialised and reloaded, is the same function
+                    reloaded(run, w, key)
     run.floor('operation sequences enumerated', n_enum, 60)
     run.extra['sequences'] = n_seq
+    two_models(run, repo, ci)
     # entropy and heat capacities vanish
     I = Interp(repo)
     o = Obj('cov', ci)
@@ -229,6 +350,21 @@ def check(run, repo):
         run.check(isinstance(got, Rat) and Dw.d(got * Tq, 'Tq').iszero(), 'DERIV.T-free', 'PiecewiseCovEffect.' + q,
                   'temperature independent', 'T * %s depends on temperature: the excess energy in energy units must '
                   'not' % q[4:], owner.module, fn)
+    # ... and still after an edit: nothing an energy form computed before the edit may survive it
+    r_ins = w.insert(15)
+    if not isinstance(r_ins, Raised):
+        w.ranks['xq'] = Fr(17)
+        u = w.I.call_method(w.obj, 'get_UoRT', [], {'x': xq, 'T': Tq})
+        for q in ('get_HoRT', 'get_FoRT', 'get_GoRT'):
+            if repo.find_method(ci, q, missing_ok=True) is None:
+                continue
+            owner, fn = repo.find_method(ci, q)
+            got = w.I.call_method(w.obj, q, [], {'x': xq, 'T': Tq})
+            run.check(isinstance(got, Rat) and isinstance(u, Rat) and same(got, u), 'TWIN.energy-forms',
+                      'PiecewiseCovEffect.' + q, 'same excess energy as U after an insert',
+                      'evaluated, then a breakpoint inserted, then evaluated above it: %s(x, T) is %s but the excess '
+                      'energy U/RT at the same coverage and temperature is %s'
+                      % (q, show(got, 120), show(u, 120)), owner.module, fn)
     # serialise / reload
     w = World(repo, 3)
     w.insert(15)
@@ -264,6 +400,11 @@ def check(run, repo):
                       '(value at the same coverage %s -> %s, %d -> %d breakpoints): the dictionary carries the '
                       'model\'s own lists instead of copies' % (show(before, 80), show(after, 80), n_before,
                                                                len(w.obj.attrs['intervals'].items)), o_t.module, f_t)
+            if same(before, after) and len(w.obj.attrs['intervals'].items) == n_before:
+                # the copy was evaluated, then edited: it is the reference function of its own pair list
+                pairs2 = list(w.pairs)
+                pairs2.insert(len([p for p in pairs2 if p[2] <= 12]), (w.I.D.sym('xnew'), w.I.D.sym('knew'), Fr(12)))
+                invariants(run, View(w, o2, pairs2), 'reloaded copy after insert', ins_owner)
             d2 = w.I.call_method(w.obj, 'to_dict', [], {})
             saved = [len(v.items) for v in d2.d.values() if isinstance(v, ListV)] if isinstance(d2, DictV) else []
             w.I.call_method(w.obj, 'insert', [], {'interval': w.I.D.sym('xnew2'), 'slope': w.I.D.sym('knew2')}) \
@@ -303,5 +444,20 @@ MUTANTS = [
      'edits': [(C_, 'i = np.argmax(x < np.array(self.intervals)) - 1', 'i = np.argmax(x < np.array(self.intervals))')]},
     {'name': 'lookup uses <=', 'expect': ('REF.lookup', ''),
      'edits': [(C_, 'i = np.argmax(x < np.array(self.intervals)) - 1', 'i = np.argmax(x <= np.array(self.intervals)) - 1')]},
+    # white-box review: an evaluation between two edits, reload after an insert onto a breakpoint, two live models
+    {'name': 'thresholds cached at the first evaluation, not refreshed by insert/pop', 'expect': ('REF.lookup', 'get_UoRT'),
+     'edits': [(C_, '        self._set_intercepts()\n        self.name = name', '        self._set_intercepts()\n        self._thresholds = None\n        self.name = name'),
+               (C_, '        i = np.argmax(x < np.array(self.intervals)) - 1', '        if self._thresholds is None:\n            self._thresholds = np.array(self.intervals)\n        i = np.argmax(x < self._thresholds) - 1')]},
+    {'name': 'constructor keeps one entry per repeated breakpoint', 'expect': ('TABLE.roundtrip', 'from_dict'),
+     'edits': [(C_, '        self.intervals = intervals\n        self.slopes = slopes\n',
+                '        self.intervals = []\n        self.slopes = []\n        for interval, slope in zip(intervals, slopes):\n'
+                '            if self.intervals and interval == self.intervals[-1]:\n                continue\n'
+                '            self.intervals.append(interval)\n            self.slopes.append(slope)\n')]},
+    {'name': 'breakpoint and slope lists as mutable default arguments', 'expect': ('EFFECT.shared-state', '__init__'),
+     'edits': [(C_, 'def __init__(self, name_i, name_j, intervals, slopes, name=None):',
+                'def __init__(self, name_i, name_j, intervals=[0.], slopes=[0.], name=None):')]},
+    {'name': 'enthalpy remembered across an insert', 'expect': ('TWIN.energy-forms', 'get_HoRT'),
+     'edits': [(C_, '        return self.get_UoRT(x=x, T=T)\n', "        if getattr(self, '_H', None) is None:\n"
+                '            self._H = self.get_UoRT(x=x, T=T) * T\n        return self._H / T\n')]},
 ]
 EQUIV = []
